@@ -64,102 +64,128 @@ def rt_undirected(H, spec):
         out.append((mon, msg))
 
     # 1 hyperedge list (no labels: same edge order)
-    if not has_empty:
-        L = xgi.to_hyperedge_list(H)
-        H2 = xgi.from_hyperedge_list(L)
-        if [set(m) for m in H2.edges.members()] != [set(mem[e]) for e in H.edges]:
-            bad("hyperedge-list", f"edge list round trip: {H2.edges.members()} != {[mem[e] for e in H.edges]}")
-        H3 = xgi.Hypergraph(L)
-        if [set(m) for m in H3.edges.members()] != [set(mem[e]) for e in H.edges]:
-            bad("hyperedge-list", "Hypergraph(list) differs from the list")
+    def _b1():
+        if not has_empty:
+            L = xgi.to_hyperedge_list(H)
+            H2 = xgi.from_hyperedge_list(L)
+            if [set(m) for m in H2.edges.members()] != [set(mem[e]) for e in H.edges]:
+                bad("hyperedge-list", f"edge list round trip: {H2.edges.members()} != {[mem[e] for e in H.edges]}")
+            H3 = xgi.Hypergraph(L)
+            if [set(m) for m in H3.edges.members()] != [set(mem[e]) for e in H.edges]:
+                bad("hyperedge-list", "Hypergraph(list) differs from the list")
+
     # 2 hyperedge dict
-    d = xgi.to_hyperedge_dict(H)
-    H2 = xgi.from_hyperedge_dict(d)
-    if {e: set(m) for e, m in H2.edges.members(dtype=dict).items()} != {e: set(m) for e, m in mem.items()}:
-        bad("hyperedge-dict", f"edge dict round trip: {H2.edges.members(dtype=dict)} != {mem}")
+    def _b2():
+        d = xgi.to_hyperedge_dict(H)
+        H2 = xgi.from_hyperedge_dict(d)
+        if {e: set(m) for e, m in H2.edges.members(dtype=dict).items()} != {e: set(m) for e, m in mem.items()}:
+            bad("hyperedge-dict", f"edge dict round trip: {H2.edges.members(dtype=dict)} != {mem}")
+
     # 3 bipartite edge list
-    if I0:
-        bl = xgi.to_bipartite_edgelist(H)
-        H2 = xgi.from_bipartite_edgelist(bl)
-        if inc(H2) != I0 or type(H2).__name__ != "Hypergraph":
-            bad("bipartite-edgelist", f"bipartite edge list round trip: {sorted(inc(H2), key=repr)} != {sorted(I0, key=repr)}")
+    def _b3():
+        if I0:
+            bl = xgi.to_bipartite_edgelist(H)
+            H2 = xgi.from_bipartite_edgelist(bl)
+            if inc(H2) != I0 or type(H2).__name__ != "Hypergraph":
+                bad("bipartite-edgelist", f"bipartite edge list round trip: {sorted(inc(H2), key=repr)} != {sorted(I0, key=repr)}")
+
     # 4 labelled incidence matrix
-    if I0:
-        for sparse in (True, False):
-            M, rd, cd = xgi.to_incidence_matrix(H, sparse=sparse, index=True)
-            H2 = xgi.from_incidence_matrix(M, nodelabels=[rd[i] for i in range(len(rd))], edgelabels=[cd[j] for j in range(len(cd))])
-            if inc(H2) != I0:
-                bad("incidence-matrix", f"labelled incidence matrix round trip (sparse={sparse}): {sorted(inc(H2), key=repr)} "
-                    f"!= {sorted(I0, key=repr)}")
-        # unlabelled: positions
-        M = xgi.to_incidence_matrix(H, sparse=False)
-        H2 = xgi.from_incidence_matrix(M)
-        pos_n = {n: i for i, n in enumerate(H.nodes)}
-        pos_e = {e: j for j, e in enumerate(H.edges)}
-        if inc(H2) != {(pos_n[n], pos_e[e]) for n, e in I0}:
-            bad("incidence-matrix", "unlabelled incidence matrix round trip is not positional")
+    def _b4():
+        if I0:
+            for sparse in (True, False):
+                M, rd, cd = xgi.to_incidence_matrix(H, sparse=sparse, index=True)
+                H2 = xgi.from_incidence_matrix(M, nodelabels=[rd[i] for i in range(len(rd))], edgelabels=[cd[j] for j in range(len(cd))])
+                if inc(H2) != I0:
+                    bad("incidence-matrix", f"labelled incidence matrix round trip (sparse={sparse}): {sorted(inc(H2), key=repr)} "
+                        f"!= {sorted(I0, key=repr)}")
+            # unlabelled: positions
+            M = xgi.to_incidence_matrix(H, sparse=False)
+            H2 = xgi.from_incidence_matrix(M)
+            pos_n = {n: i for i, n in enumerate(H.nodes)}
+            pos_e = {e: j for j, e in enumerate(H.edges)}
+            if inc(H2) != {(pos_n[n], pos_e[e]) for n, e in I0}:
+                bad("incidence-matrix", "unlabelled incidence matrix round trip is not positional")
+
     # 5 bipartite graph
-    G, nd, ed = xgi.to_bipartite_graph(H, index=True)
-    H2 = xgi.from_bipartite_graph(G)
-    got = {(nd[n], ed[e]) for n, e in inc(H2)}
-    if got != I0:
-        bad("bipartite-graph", f"bipartite graph round trip: {sorted(got, key=repr)} != {sorted(I0, key=repr)}")
-    if {nd[n] for n in H2.nodes} != set(H.nodes):
-        bad("bipartite-graph", f"bipartite graph round trip lost nodes: {[nd[n] for n in H2.nodes]} vs {list(H.nodes)}")
+    def _b5():
+        G, nd, ed = xgi.to_bipartite_graph(H, index=True)
+        H2 = xgi.from_bipartite_graph(G)
+        got = {(nd[n], ed[e]) for n, e in inc(H2)}
+        if got != I0:
+            bad("bipartite-graph", f"bipartite graph round trip: {sorted(got, key=repr)} != {sorted(I0, key=repr)}")
+        if {nd[n] for n in H2.nodes} != set(H.nodes):
+            bad("bipartite-graph", f"bipartite graph round trip lost nodes: {[nd[n] for n in H2.nodes]} vs {list(H.nodes)}")
+
     # 6 dataframe
-    if I0:
-        df = xgi.to_bipartite_pandas_dataframe(H)
-        H2 = xgi.from_bipartite_pandas_dataframe(df, node_column="Node ID", edge_column="Edge ID")
-        if inc(H2) != I0:
-            bad("dataframe", f"two-column dataframe round trip: {sorted(inc(H2), key=repr)} != {sorted(I0, key=repr)}")
-        H3 = xgi.Hypergraph(df)
-        if inc(H3) != I0:
-            bad("dataframe", "Hypergraph(dataframe) differs")
+    def _b6():
+        if I0:
+            df = xgi.to_bipartite_pandas_dataframe(H)
+            H2 = xgi.from_bipartite_pandas_dataframe(df, node_column="Node ID", edge_column="Edge ID")
+            if inc(H2) != I0:
+                bad("dataframe", f"two-column dataframe round trip: {sorted(inc(H2), key=repr)} != {sorted(I0, key=repr)}")
+            H3 = xgi.Hypergraph(df)
+            if inc(H3) != I0:
+                bad("dataframe", "Hypergraph(dataframe) differs")
+
     # 7 standard dict
-    if labels_int or labels_str:
-        cast = int if labels_int else None
-        dd = xgi.to_hypergraph_dict(H)
-        H2 = xgi.from_hypergraph_dict(dd, nodetype=cast, edgetype=cast)
-        a, b = full(H), full(H2)
-        if a != b:
-            bad("hypergraph-dict", f"standard dict round trip: {_fd(a, b)}")
-    elif all(isinstance(n, int) for n in H.nodes):
-        dd = xgi.to_hypergraph_dict(H)
-        H2 = xgi.from_hypergraph_dict(dd, nodetype=int)
-        a, b = full(H), full(H2)
-        a["edges"] = {str(e) for e in a["edges"]}
-        a["members"] = {str(e): m for e, m in a["members"].items()}
-        a["eattr"] = {str(e): m for e, m in a["eattr"].items()}
-        if a != b:
-            bad("hypergraph-dict", f"standard dict round trip (string edge IDs): {_fd(a, b)}")
+    def _b7():
+        if labels_int or labels_str:
+            cast = int if labels_int else None
+            dd = xgi.to_hypergraph_dict(H)
+            H2 = xgi.from_hypergraph_dict(dd, nodetype=cast, edgetype=cast)
+            a, b = full(H), full(H2)
+            if a != b:
+                bad("hypergraph-dict", f"standard dict round trip: {_fd(a, b)}")
+        elif all(isinstance(n, int) for n in H.nodes):
+            dd = xgi.to_hypergraph_dict(H)
+            H2 = xgi.from_hypergraph_dict(dd, nodetype=int)
+            a, b = full(H), full(H2)
+            a["edges"] = {str(e) for e in a["edges"]}
+            a["members"] = {str(e): m for e, m in a["members"].items()}
+            a["eattr"] = {str(e): m for e, m in a["eattr"].items()}
+            if a != b:
+                bad("hypergraph-dict", f"standard dict round trip (string edge IDs): {_fd(a, b)}")
+
     # 8 HIF dict
-    H2 = xgi.from_hif_dict(xgi.to_hif_dict(H))
-    a, b = full(H), full(H2)
-    if a != b:
-        bad("hif-dict", f"HIF dict round trip: {_fd(a, b)}")
+    def _b8():
+        H2 = xgi.from_hif_dict(xgi.to_hif_dict(H))
+        a, b = full(H), full(H2)
+        if a != b:
+            bad("hif-dict", f"HIF dict round trip: {_fd(a, b)}")
+
     # 9 class to class
-    S2 = xgi.SimplicialComplex(H)
-    sm = {frozenset(m) for m in S2.edges.members()}
-    for e, m in mem.items():
-        if m and frozenset(m) not in sm:
-            bad("to-simplicial-complex", f"SimplicialComplex(H) lacks the member set of edge {e!r}")
-        for k in range(2, len(m)):
-            for sub in itertools.combinations(sorted(m, key=repr), k):
-                if frozenset(sub) not in sm:
-                    bad("to-simplicial-complex", f"SimplicialComplex(H) lacks face {sub} of edge {e!r}")
-    if set(S2.nodes) != set(H.nodes) or {n: S2.nodes[n] for n in S2.nodes} != {n: H.nodes[n] for n in H.nodes}:
-        bad("to-simplicial-complex", "SimplicialComplex(H) changed the node set or node attributes")
-    if dict(S2._net_attr) != dict(H._net_attr):
-        bad("to-simplicial-complex", f"SimplicialComplex(H) network attributes {dict(S2._net_attr)} != {dict(H._net_attr)}")
-    first = {}
-    for e in H.edges:
-        if mem[e]:
-            first.setdefault(frozenset(mem[e]), e)
-    s2m = S2.edges.members(dtype=dict)
-    for fs, e in first.items():
-        if e not in s2m or frozenset(s2m[e]) != fs or S2.edges[e] != H.edges[e]:
-            bad("to-simplicial-complex", f"SimplicialComplex(H): edge {e!r} (first with its member set) should keep its ID "
-                f"and attributes {H.edges[e]}; got {s2m.get(e)!r} / {S2.edges[e] if e in s2m else None}")
+    def _b9():
+        S2 = xgi.SimplicialComplex(H)
+        sm = {frozenset(m) for m in S2.edges.members()}
+        for e, m in mem.items():
+            if m and frozenset(m) not in sm:
+                bad("to-simplicial-complex", f"SimplicialComplex(H) lacks the member set of edge {e!r}")
+            for k in range(2, len(m)):
+                for sub in itertools.combinations(sorted(m, key=repr), k):
+                    if frozenset(sub) not in sm:
+                        bad("to-simplicial-complex", f"SimplicialComplex(H) lacks face {sub} of edge {e!r}")
+        if set(S2.nodes) != set(H.nodes) or {n: S2.nodes[n] for n in S2.nodes} != {n: H.nodes[n] for n in H.nodes}:
+            bad("to-simplicial-complex", "SimplicialComplex(H) changed the node set or node attributes")
+        if dict(S2._net_attr) != dict(H._net_attr):
+            bad("to-simplicial-complex", f"SimplicialComplex(H) network attributes {dict(S2._net_attr)} != {dict(H._net_attr)}")
+        first = {}
+        for e in H.edges:
+            if mem[e]:
+                first.setdefault(frozenset(mem[e]), e)
+        s2m = S2.edges.members(dtype=dict)
+        for fs, e in first.items():
+            if e not in s2m or frozenset(s2m[e]) != fs or S2.edges[e] != H.edges[e]:
+                bad("to-simplicial-complex", f"SimplicialComplex(H): edge {e!r} (first with its member set) should keep its ID "
+                    f"and attributes {H.edges[e]}; got {s2m.get(e)!r} / {S2.edges[e] if e in s2m else None}")
+    for fn, nm in ((_b1, 'hyperedge list'), (_b2, 'hyperedge dict'), (_b3, 'bipartite edge list'), (_b4, 'labelled incidence matrix'), (_b5, 'bipartite graph'), (_b6, 'dataframe'), (_b7, 'standard dict'), (_b8, 'HIF dict'), (_b9, 'class to class')):
+        try:
+            fn()
+        except RecursionError:
+            raise
+        except Exception as e:  # noqa: BLE001
+            import traceback
+
+            bad(nm.replace(' ', '-') + '-raises', f"{nm}: {type(e).__name__}: {e} at {traceback.format_exc().splitlines()[-3].strip()}")
     return out
 
 
@@ -308,6 +334,16 @@ def family(tier):
     for s in base[::7]:
         items.append(("H", F.with_empty_edge(decorate(s, 2))))
         items.append(("H", decorate(F.relabel(s, node_map={n: "v%d" % n for n in s["nodes"]}), 1)))
+    # label *types* other than uniform int / str: floats, tuples, and several types mixed within one network, for node
+    # labels and for explicit edge IDs (every in-memory representation that carries labels must carry these unchanged)
+    for s in base[::3 if q else 2]:
+        m = len(s["edges"])
+        for k, (_, nm) in enumerate(F.exotic_label_maps(s["nodes"])):
+            eids = [[i + 0.5 for i in range(m)], [("e", i) for i in range(m)], ["a", 7, (1, 2), 2.5, "b", 11][:m] if m <= 6 else None,
+                    list(range(m))][k % 4]
+            if eids is None:
+                continue
+            items.append(("H", F.relabel(s, node_map=nm, edge_ids=eids)))
     for s in F.directed([1, 2, 3], 2 if q else 2, isolated=not q):
         items.append(("D", s))
         if len(s["edges"]) == 2:
